@@ -19,6 +19,8 @@ try:
     for mid in ids:
         d = os.path.join(V, 'seeded', mid)
         meta = json.load(open(os.path.join(d, 'meta.json')))
+        if meta.get('outside_quantifier') and not args:
+            print(mid, 'skipped: outside the quantifier of its property'); continue
         if meta.get('neutralised_by') and not args:
             print(mid, 'skipped: neutralised by', meta['neutralised_by']); continue
         checks = checks_override or meta.get('run_checks') or [meta['breaks_property']]
